@@ -5,7 +5,9 @@
    dashu's `IBig::div_rem` truncates toward zero (remainder has the sign of the
    dividend)  ->  Z.quot / Z.rem.  The arithmetic uses the GLOBAL scale
    PRECISION = 10^34 whatever `self.precision` is, so the model takes the raw
-   `data` integers of `self` and `compare`.  `max_n : u64`, `bound_x : i64`
+   `data` integers of `self` and `compare`.  Transcribed from the tree at /repo
+   commit f6d913e7 (error_term = |error| * bound_x; before that commit the
+   signed `&error` was used).  `max_n : u64`, `bound_x : i64`
    are plain Z (no arithmetic on them can overflow: `n` only counts up to
    `max_n`, `bound_x` is converted to IBig before the multiplication). *)
 From PV Require Import Lib.Base.
